@@ -452,7 +452,7 @@ var (
 	vfKeyIDs  = []string{"AKID", "key-1", "k2", "Vf_Key3", "0"}
 	vfSecrets = []string{"SECRET", "s3cr3t/with+chars=", "päss 中文", " lead and trail ", "x", "0123456789abcdef0123456789abcdef", "a:b,c d"}
 	vfScopes  = []string{"us-east-1", "dynamodb", "s3", "eu", "svc-1", "x"}
-	vfTTLs    = []time.Duration{0, 0, time.Minute, 5 * time.Minute, 15 * time.Minute, time.Hour, 24 * time.Hour}
+	vfTTLs    = []time.Duration{0, 0, 2 * time.Minute, 5 * time.Minute, 15 * time.Minute, time.Hour, 24 * time.Hour}
 )
 
 func vfGenSigCfg(rt *rapid.T) vfSigCfg {
@@ -476,20 +476,22 @@ func vfGenSigPlan(rt *rapid.T, c vfSigCfg, kind string, presign bool) (vfSigPlan
 		p.Scopes = append(p.Scopes, rapid.SampledFrom(vfScopes).Draw(rt, "scope"))
 	}
 	if presign {
-		p.Expire = rapid.SampledFrom([]time.Duration{time.Minute, 5 * time.Minute, time.Hour}).Draw(rt, "expire")
+		p.Expire = rapid.SampledFrom([]time.Duration{2 * time.Minute, 5 * time.Minute, time.Hour}).Draw(rt, "expire")
 	}
 	for _, h := range []string{"X-Vf-B", "Accept", "X-Trace"} {
 		if rapid.IntRange(0, 3).Draw(rt, "ignore"+h) == 0 {
 			p.Ignored = append(p.Ignored, h)
 		}
 	}
-	// the longest age that is still valid, with a 30 s margin for a busy machine
+	// the longest age that is still valid, with a 60 s margin for a busy machine (Verify reads the
+	// wall clock; the case itself takes milliseconds)
+	const margin = 60 * time.Second
 	bound := time.Duration(-1)
 	if c.TTL > 0 {
-		bound = c.TTL - 30*time.Second
+		bound = c.TTL - margin
 	}
-	if presign && (bound < 0 || p.Expire-30*time.Second < bound) {
-		bound = p.Expire - 30*time.Second
+	if presign && (bound < 0 || p.Expire-margin < bound) {
+		bound = p.Expire - margin
 	}
 	fresh := func() time.Duration {
 		if bound < 0 {
@@ -512,7 +514,7 @@ func vfGenSigPlan(rt *rapid.T, c vfSigCfg, kind string, presign bool) (vfSigPlan
 			p.Age = fresh()
 			break
 		}
-		limit := bound + 30*time.Second
+		limit := bound + margin
 		p.Age = limit + rapid.SampledFrom([]time.Duration{5 * time.Second, time.Hour, 100 * time.Hour}).Draw(rt, "staleBy")
 	case "future":
 		p.Age = -rapid.SampledFrom([]time.Duration{20 * time.Second, time.Hour, 100 * time.Hour}).Draw(rt, "futureBy")
